@@ -213,6 +213,8 @@ func (s *ResettableKeystore) ResetCids(ctx context.Context, keysChan <-chan cid.
   ghostvar $pending int = 0
   modifies *
   ensures [every-request-to-the-worker-is-awaited] $pending == 0
+  # configuration invariant (ASSUMED here): WithBatchSize rejects sizes <= 0 and the default is positive
+  ghost at entry: assume(s.batchSize > 0)
   # ASSUMED (listed): the answer channel travels inside the request and is only
   # ever sent on by the worker (handleResetOp), never closed
   recv_delivers opsChan
